@@ -91,6 +91,16 @@ def emit(repo, spec, H):
             raise ValueError("%s:%s: anchor %r matched %d times (need exactly 1)" % (f, fn, anchor, len(ms)))
         out.append("(* %s: %s *)" % (f, fn))
         out.append("Definition %s : string := %s." % (name, _q(ms[0].group(1))))
+    # is a statement present in a block?  spec["flags"] = [[file, func, block-anchor-regex (group 1 = the block), statement-regex, name], ...]
+    #   -> Definition <name> : bool := true | false.
+    for f, fn, anchor, stmt, name in spec.get("flags", []):
+        body = H.func_body(H.raw(repo, f), fn)
+        ms = list(re.finditer(anchor, body))
+        if len(ms) != 1:
+            raise ValueError("%s:%s: anchor %r matched %d times (need exactly 1)" % (f, fn, anchor, len(ms)))
+        block = " ".join(ms[0].group(1).split())
+        out.append("(* %s: %s: block { %s } contains /%s/ ? *)" % (f, fn, block.replace("*)", "* )").replace("(*", "( *"), stmt))
+        out.append("Definition %s : bool := %s." % (name, "true" if re.search(stmt, block) else "false"))
     # C conditions translated expression by expression into Gallina (Z-valued, C truth value 0/1), taken from the
     # preprocessed function body: spec["conds"] = [[file, func, anchor-regex (group 1 = the C expression), name,
     # [params], {c-subexpr: identifier}], ...]
